@@ -244,6 +244,13 @@ pub fn random_map(rng: &mut Rng, cfg: &GenCfg) -> MapSpec {
     let grid = |rng: &mut Rng| (rng.range(0, 20) as f32) * 0.5;
     m.ar = grid(rng);
     m.cs = if cfg.mode == 3 { rng.range(1, 9) as f32 } else { grid(rng).min(9.0) };
+    // mania key counts are `cs.round_ties_even()`: half-integer CircleSize values (2.5, 4.5, …) are where
+    // `round` and `round_ties_even` part ways (seed C02-mania-oneshot-columns-round-vs-ties-even); every 5th
+    // mania map gets one, and then notes off the canonical x grid so that an extra column is visible
+    let mania_half_cs = cfg.mode == 3 && m.cs < 9.0 && rng.chance(1, 5);
+    if mania_half_cs {
+        m.cs += 0.5;
+    }
     m.hp = grid(rng);
     m.od = grid(rng);
     m.slider_multiplier = *rng.pick(&[0.4, 1.0, 1.4, 1.8, 2.6, 3.6]);
@@ -280,7 +287,9 @@ pub fn random_map(rng: &mut Rng, cfg: &GenCfg) -> MapSpec {
         let y = rng.range(0, 384) as i32;
         if cfg.mode == 3 {
             let col = rng.range(0, (columns - 1) as i64) as i32;
-            x = (col * 512 + 256) / columns;
+            if !(mania_half_cs && rng.chance(1, 2)) {
+                x = (col * 512 + 256) / columns;
+            }
         }
         let sound = *rng.pick(&[0u8, 0, 2, 4, 8, 10, 6]);
         let mut pick = rng.below(total_w);
